@@ -438,6 +438,19 @@ impl<T> Shared<T> {
       self
         .async_send_waiter_count
         .store(g.queue.len(), Ordering::Release);
+      return;
+    }
+    // Our registration is gone: `notify_senders` already popped it and spent the drip's single
+    // wake on us. The caller is done with this registration (it completed on its own, or the
+    // future is being dropped), so the wake is passed on to the next waiting sender; otherwise
+    // the remaining async senders sleep until a publication that may never come. At worst this
+    // is one spurious wake.
+    if let Some((_id, waker, _)) = g.queue.pop_front() {
+      self
+        .async_send_waiter_count
+        .store(g.queue.len(), Ordering::Release);
+      drop(g);
+      waker.wake();
     }
   }
 
